@@ -26,6 +26,7 @@ type c12State struct {
 	s     *ResourceSemaphore
 	chans []chan struct{}
 	amt   []int64
+	locks0 int
 	max0  int64
 	cur0  int64
 	res0  int64
@@ -57,6 +58,7 @@ func c12Pre(k int) *c12State {
 		verifAssume(cur-res < st.amt[0])
 	}
 	st.s, st.max0, st.cur0, st.res0 = s, max, cur, res
+	st.locks0 = verifLockCount()
 	return st
 }
 
@@ -66,6 +68,12 @@ func c12Pre(k int) *c12State {
 // and the remaining head does not fit.
 func (st *c12State) c12Post(delta int64, label string) {
 	s := st.s
+	// the one-step argument needs every operation to be ONE critical section:
+	// an unlock/re-lock window inside an operation lets a Release slip in
+	// unseen (lost wake-up)
+	if n := verifLockCount(); n >= 0 {
+		verifAssert(n-st.locks0 == 1, label+": the operation is a single critical section under mu, no unlock/re-lock window (ghost)")
+	}
 	verifAssert(!verifMutexHeld(&s.mu), label+": mutex released")
 	verifAssert(s.maxSize == st.max0, label+": maxSize unchanged")
 	verifAssert(verifAll(s.reserved >= 0, s.reserved <= s.maxSize), label+": 0 <= reserved <= maxSize")
